@@ -220,4 +220,140 @@ theorem deleteQuota_decl (s : State) (n : Nat) : ∀ m, m ≠ n → declOf (dele
     unfold declOf
     rw [get?_erase_ne s hm]
 
+theorem declOf_ite_deltaReq (c : Prop) [Decidable c] (x : State) (n : Nat) (d dnp : Int) (sf : Bool) (m : Nat) :
+    declOf (if c then deltaReq x n d dnp sf else x) m = declOf x m := by
+  split
+  · exact declOf_of_DM (deltaReq_DM _ _ _ _ _) m
+  · rfl
+
+theorem declOf_ite_deltaUsed (c : Prop) [Decidable c] (x : State) (n : Nat) (d dnp : Int) (sf : Bool) (m : Nat) :
+    declOf (if c then deltaUsed x n d dnp sf else x) m = declOf x m := by
+  split
+  · exact declOf_of_DM (deltaUsed_DM _ _ _ _ _) m
+  · rfl
+
+/-- doUpdateMax then doUpdateMin on a freshly inserted group -/
+theorem fresh_decl (nq : Quota) (t : State) (sp : QSpec) (hn : nq.name = sp.name) (hl : nq.lend = sp.lend) :
+    declOf (doUpdateMin (doUpdateMax (nq :: t) sp.name (some sp.max)) sp.name sp.min) sp.name = some (sp.min, sp.lend) ∧
+    ∀ m, m ≠ sp.name → declOf (doUpdateMin (doUpdateMax (nq :: t) sp.name (some sp.max)) sp.name sp.min) m = declOf t m := by
+  have h1 : ∀ m, declOf (doUpdateMax (nq :: t) sp.name (some sp.max)) m =
+      if sp.name = m then some (nq.min, sp.lend) else declOf t m := by
+    intro m; rw [declOf_of_DM (doUpdateMax_DM _ _ _), declOf_cons, hn, hl]
+  have h0 := h1 sp.name
+  simp only [if_true] at h0
+  obtain ⟨ha, hb⟩ := doUpdateMin_decl h0 sp.min
+  refine ⟨ha, fun m hm => ?_⟩
+  rw [hb m hm, h1 m]; simp [Ne.symm hm]
+
+theorem createQuota_decl (s : State) (sp : QSpec) :
+    declOf (createQuota s sp) sp.name = some (sp.min, sp.lend) ∧
+    ∀ m, m ≠ sp.name → declOf (createQuota s sp) m = declOf s m :=
+  fresh_decl (emptyQuota sp.name sp.parent sp.isParent sp.lend) s sp rfl rfl
+
+theorem reparent_decl (s : State) (q : Quota) (sp : QSpec) :
+    declOf (reparent s q sp) sp.name = some (sp.min, sp.lend) ∧
+    ∀ m, m ≠ sp.name → declOf (reparent s q sp) m = declOf s m := by
+  unfold reparent
+  simp only [declOf_ite_deltaReq, declOf_ite_deltaUsed]
+  obtain ⟨ha, hb⟩ := fresh_decl { emptyQuota sp.name sp.parent sp.isParent sp.lend with pods := q.pods } (deleteQuota s sp.name) sp rfl rfl
+  exact ⟨ha, fun m hm => by rw [hb m hm, deleteQuota_decl s sp.name m hm]⟩
+
+/-- UpdateQuota(sp), every branch: group sp.name ends with min = sp.min and lend = sp.lend; no other group's min / lend
+flag changes. -/
+theorem updateQuota_decl (s : State) (sp : QSpec) :
+    declOf (updateQuota s sp) sp.name = some (sp.min, sp.lend) ∧
+    ∀ m, m ≠ sp.name → declOf (updateQuota s sp) m = declOf s m := by
+  unfold updateQuota
+  split
+  · exact createQuota_decl s sp
+  · next q hq =>
+    have hn := get?_name hq
+    have h0 : declOf s sp.name = some (q.min, q.lend) := by unfold declOf; rw [hq]; rfl
+    split
+    · next hc =>
+      simp only []
+      have h1 : DM (if q.max ≠ some sp.max then doUpdateMax s sp.name (some sp.max) else s) = DM s := by
+        split
+        · exact doUpdateMax_DM _ _ _
+        · rfl
+      split
+      · obtain ⟨ha, hb⟩ := doUpdateMin_decl (show declOf _ sp.name = some (q.min, q.lend) by rw [declOf_of_DM h1]; exact h0) sp.min
+        exact ⟨by rw [ha, hc.1], fun m hm => by rw [hb m hm, declOf_of_DM h1]⟩
+      · next hmin =>
+        have hm' : q.min = sp.min := Decidable.not_not.mp hmin
+        exact ⟨by rw [declOf_of_DM h1, h0, hm', hc.1], fun m _ => declOf_of_DM h1 m⟩
+    · split
+      · exact reparent_decl s q sp
+      · have hset : ∀ m, declOf (set s { q with max := some sp.max, min := sp.min, lend := sp.lend, isParent := sp.isParent }) m =
+            if m = sp.name then some (sp.min, sp.lend) else declOf s m := by
+          intro m
+          rw [declOf_set (q := q) (by show get? s q.name = some q; rw [hn]; exact hq)]
+          show (if m = q.name then _ else _) = _
+          rw [hn]
+        refine ⟨?_, fun m hm => ?_⟩
+        · rw [declOf_of_DM (DM_of_obj (resetAll_obj _)), hset]; simp
+        · rw [declOf_of_DM (DM_of_obj (resetAll_obj _)), hset]; simp [hm]
+
+/-- One operation of any kind: the declared (min, lend) of every group is what the last UpdateQuota for it carried. -/
+theorem step_declared (s : State) (op : Op) :
+    match op with
+    | .quota sp => declOf (step s op) sp.name = some (sp.min, sp.lend) ∧ ∀ m, m ≠ sp.name → declOf (step s op) m = declOf s m
+    | .delQuota n => ∀ m, m ≠ n → declOf (step s op) m = declOf s m
+    | _ => ∀ m, declOf (step s op) m = declOf s m := by
+  cases op with
+  | quota sp => exact updateQuota_decl s sp
+  | delQuota n => exact deleteQuota_decl s n
+  | reset => exact fun m => declOf_of_DM (DM_of_obj (resetAll_obj s)) m
+  | podAdd n p => exact fun m => declOf_of_DM (DM_of_statN (podOp_statN s _ trivial)) m
+  | podUpdate a b np op => exact fun m => declOf_of_DM (DM_of_statN (podOp_statN s _ trivial)) m
+  | podDelete n p => exact fun m => declOf_of_DM (DM_of_statN (podOp_statN s _ trivial)) m
+  | reserve n p => exact fun m => declOf_of_DM (DM_of_statN (podOp_statN s _ trivial)) m
+  | unreserve n p => exact fun m => declOf_of_DM (DM_of_statN (podOp_statN s _ trivial)) m
+  | migrate p a b => exact fun m => declOf_of_DM (DM_of_statN (podOp_statN s _ trivial)) m
+
+/-- operations that are not an UpdateQuota / DeleteQuota of group `g` -/
+def NoTouch (g : Nat) : Op → Prop
+  | .quota sp => sp.name ≠ g
+  | .delQuota n => n ≠ g
+  | _ => True
+
+theorem run_keeps_decl (g : Nat) : ∀ (rest : List Op) (s : State), (∀ op ∈ rest, NoTouch g op) →
+    declOf (run s rest) g = declOf s g
+  | [], _, _ => rfl
+  | op :: t, s, h => by
+    have ht := run_keeps_decl g t (step s op) (fun o ho => h o (List.mem_cons_of_mem _ ho))
+    have h0 := h op (List.mem_cons_self ..)
+    show declOf (run (step s op) t) g = _
+    rw [ht]
+    have hs := step_declared s op
+    cases op <;> simp only [NoTouch] at h0 <;>
+      first | exact hs.2 g (Ne.symm h0) | exact hs g (Ne.symm h0) | exact hs g
+
+/-- after a history whose last UpdateQuota / DeleteQuota for group sp.name was UpdateQuota(sp), the group's min and lend
+flag are those of `sp` -/
+theorem declared_after (s : State) (pre rest : List Op) (sp : QSpec) (h : ∀ op ∈ rest, NoTouch sp.name op) :
+    declOf (run s (pre ++ .quota sp :: rest)) sp.name = some (sp.min, sp.lend) := by
+  have e : run s (pre ++ .quota sp :: rest) = run (step (run s pre) (.quota sp)) rest := by
+    simp [run, List.foldl_append]
+  rw [e, run_keeps_decl _ _ _ h]
+  exact (step_declared (run s pre) (.quota sp)).1
+
+/-- the request floor is the min of the LAST APPLIED quota object of the group -/
+theorem request_floor_last_declared (ops : List XOp) (pre rest : List Op) (sp : QSpec)
+    (hsplit : ops.filterMap XOp.acct? = pre ++ .quota sp :: rest) (hrest : ∀ op ∈ rest, NoTouch sp.name op)
+    (hp : PreAllF init (ops.filterMap XOp.acct?)) (hroot : sp.name ≠ rootName) :
+    ∃ q, get? (xrun xinit ops).s sp.name = some q ∧ q.min = sp.min ∧ q.lend = sp.lend ∧
+      q.request = if sp.lend then q.childRequest else max q.childRequest sp.min := by
+  have hd := declared_after init pre rest sp hrest
+  rw [← hsplit, ← show (xrun xinit ops).s = run init (ops.filterMap XOp.acct?) from xrun_state ops xinit] at hd
+  unfold declOf at hd
+  cases hq : get? (xrun xinit ops).s sp.name with
+  | none => rw [hq] at hd; simp at hd
+  | some q =>
+    rw [hq] at hd
+    simp only [Option.map_some, Option.some.injEq, Prod.mk.injEq] at hd
+    refine ⟨q, rfl, hd.1, hd.2, ?_⟩
+    rw [← hd.1, ← hd.2]
+    exact request_floor_declared ops hp sp.name q hq hroot
+
 end KoordVerif.C01
